@@ -1,6 +1,1107 @@
 // Contract harnesses for ntp-proto/src/packet/mod.rs (child module: sees private items).
-#![allow(unused_imports)]
+// Properties: C18 (answers echo correctly, reflect nothing else), C23/C22 (decoder totality,
+// header part), C24 (header round trip), C14 (poll request fits), C17 (request-sized buffer).
+#![allow(unused_imports, dead_code)]
 use super::*;
+use crate::packet::v5::server_reference_id::BloomFilter;
+use crate::system::{NtpSnapshot, TimeSnapshot};
+use crate::verif_common::harness;
+use std::sync::atomic::{AtomicBool, AtomicU64, AtomicU8, AtomicUsize, Ordering::Relaxed};
+
+// ---------------------------------------------------------------- generators (full domains)
+
+pub(crate) fn any_ts() -> NtpTimestamp {
+    NtpTimestamp::from_bits(kani::any())
+}
+pub(crate) fn any_dur() -> NtpDuration {
+    NtpDuration::from_bits(kani::any())
+}
+pub(crate) fn any_leap() -> NtpLeapIndicator {
+    match kani::any::<u8>() {
+        0 => NtpLeapIndicator::NoWarning,
+        1 => NtpLeapIndicator::Leap61,
+        2 => NtpLeapIndicator::Leap59,
+        3 => NtpLeapIndicator::Unknown,
+        _ => NtpLeapIndicator::Unsynchronized,
+    }
+}
+pub(crate) fn any_mode() -> NtpAssociationMode {
+    match kani::any::<u8>() {
+        0 => NtpAssociationMode::Reserved,
+        1 => NtpAssociationMode::SymmetricActive,
+        2 => NtpAssociationMode::SymmetricPassive,
+        3 => NtpAssociationMode::Client,
+        4 => NtpAssociationMode::Server,
+        5 => NtpAssociationMode::Broadcast,
+        6 => NtpAssociationMode::Control,
+        _ => NtpAssociationMode::Private,
+    }
+}
+/// every value of the V3/V4 header type (all twelve fields unconstrained)
+pub(crate) fn any_header_v3v4() -> NtpHeaderV3V4 {
+    NtpHeaderV3V4 {
+        leap: any_leap(),
+        mode: any_mode(),
+        stratum: kani::any(),
+        poll: PollInterval::from_byte(kani::any()),
+        precision: kani::any(),
+        root_delay: any_dur(),
+        root_dispersion: any_dur(),
+        reference_id: ReferenceId::from_int(kani::any()),
+        reference_timestamp: any_ts(),
+        origin_timestamp: any_ts(),
+        receive_timestamp: any_ts(),
+        transmit_timestamp: any_ts(),
+    }
+}
+/// every time snapshot (floats over the full f64 domain, including NaN / infinities)
+pub(crate) fn any_time_snapshot() -> TimeSnapshot {
+    TimeSnapshot {
+        precision: any_dur(),
+        root_delay: any_dur(),
+        root_variance_base_time: any_ts(),
+        root_variance_base: kani::any(),
+        root_variance_linear: kani::any(),
+        root_variance_quadratic: kani::any(),
+        root_variance_cubic: kani::any(),
+        leap_indicator: any_leap(),
+        accumulated_steps: any_dur(),
+        accumulated_steps_threshold: if kani::any() { Some(any_dur()) } else { None },
+    }
+}
+/// a bloom filter with 512 unconstrained bytes, built through the crate's public API (the bytes
+/// are private to server_reference_id.rs): one full-size chunk handed to RemoteBloomFilter
+pub(crate) fn any_bloom() -> BloomFilter {
+    use crate::packet::v5::server_reference_id::RemoteBloomFilter;
+    let bytes: [u8; 512] = kani::any();
+    let mut r = RemoteBloomFilter::new(512).unwrap();
+    let c = v5::NtpClientCookie([0; 8]);
+    let _ = r.next_request(c);
+    r.handle_response(c, &v5::extension_fields::ReferenceIdResponse::new(&bytes).unwrap())
+        .unwrap();
+    *r.full_filter().unwrap()
+}
+/// every server snapshot; `symbolic_bloom == false` fixes the (here irrelevant) filter to zeros
+pub(crate) fn any_server_info(symbolic_bloom: bool) -> NtpServerInfo {
+    NtpServerInfo {
+        time_snapshot: any_time_snapshot(),
+        ntp_snapshot: NtpSnapshot {
+            stratum: kani::any(),
+            reference_id: ReferenceId::from_int(kani::any()),
+            bloom_filter: if symbolic_bloom { any_bloom() } else { BloomFilter::new() },
+        },
+    }
+}
+
+pub(crate) fn any_version() -> ExtensionHeaderVersion {
+    if kani::any() {
+        ExtensionHeaderVersion::V4
+    } else {
+        ExtensionHeaderVersion::V5
+    }
+}
+/// prefix of `buf` with an unconstrained length 0..=N
+pub(crate) fn any_prefix<const N: usize>(buf: &[u8; N]) -> &[u8] {
+    let n: usize = kani::any();
+    kani::assume(n <= N);
+    &buf[..n]
+}
+/// Every extension-field value whose byte payload is a prefix of `buf` (kind unconstrained; the
+/// draft-identification string is one of three representatives because `str` contents can only
+/// be produced from literals without `unsafe`).
+pub(crate) fn any_field<'a, const N: usize>(buf: &'a [u8; N]) -> ExtensionField<'a> {
+    match kani::any::<u8>() {
+        0 => ExtensionField::UniqueIdentifier(Cow::Borrowed(any_prefix(buf))),
+        1 => ExtensionField::NtsCookie(Cow::Borrowed(any_prefix(buf))),
+        2 => ExtensionField::NtsCookiePlaceholder { cookie_length: kani::any() },
+        3 => ExtensionField::InvalidNtsEncryptedField,
+        4 => ExtensionField::DraftIdentification(Cow::Borrowed(match kani::any::<u8>() {
+            0 => v5::DRAFT_VERSION,
+            1 => "",
+            _ => "draft-other",
+        })),
+        5 => ExtensionField::Padding(kani::any()),
+        6 => ExtensionField::ReferenceIdRequest(any_refid_request()),
+        7 => ExtensionField::ReferenceIdResponse(v5::extension_fields::ReferenceIdResponse::decode(any_prefix(buf))),
+        _ => ExtensionField::Unknown { type_id: kani::any(), data: Cow::Borrowed(any_prefix(buf)) },
+    }
+}
+
+/// every reference-id request the decoder can return (payload 2..=65531, any offset) or the public
+/// constructor can build (the type's fields are private to its module)
+pub(crate) fn any_refid_request() -> v5::extension_fields::ReferenceIdRequest {
+    if kani::any() {
+        let mut data = [0u8; 65_531];
+        data[0] = kani::any();
+        data[1] = kani::any();
+        let len: usize = kani::any();
+        kani::assume(len >= 2 && len <= 65_531);
+        v5::extension_fields::ReferenceIdRequest::decode(&data[..len]).unwrap()
+    } else {
+        match v5::extension_fields::ReferenceIdRequest::new(kani::any(), kani::any()) {
+            Some(r) => r,
+            None => v5::extension_fields::ReferenceIdRequest::new(4, 0).unwrap(),
+        }
+    }
+}
+
+// ---------------------------------------------------------------- model cipher (recording)
+// Implements the crate's `Cipher` trait. It records what it is handed (ghost state) and returns
+// harness-chosen results. It models *an arbitrary AEAD implementation's interface behaviour*
+// (any nonce length accepted, decrypt either fails or returns some plaintext); that a tampered
+// input makes the real AES-SIV fail is assumption A3 (ideal AEAD), not modelled here.
+pub(crate) static DEC_CALLS: AtomicU8 = AtomicU8::new(0);
+pub(crate) static DEC_NONCE: (AtomicUsize, AtomicUsize) = (AtomicUsize::new(0), AtomicUsize::new(0));
+pub(crate) static DEC_CT: (AtomicUsize, AtomicUsize) = (AtomicUsize::new(0), AtomicUsize::new(0));
+pub(crate) static DEC_AAD: (AtomicUsize, AtomicUsize) = (AtomicUsize::new(0), AtomicUsize::new(0));
+pub(crate) static ENC_CALLS: AtomicU8 = AtomicU8::new(0);
+pub(crate) static ENC_AAD: (AtomicUsize, AtomicUsize) = (AtomicUsize::new(0), AtomicUsize::new(0));
+pub(crate) static ENC_PT_LEN: AtomicUsize = AtomicUsize::new(0);
+
+pub(crate) struct ModelCipher {
+    /// decrypt: succeed?
+    pub decrypt_ok: bool,
+    /// decrypt: the plaintext returned on success is `plaintext[..plaintext_len]`
+    pub plaintext: [u8; 8],
+    pub plaintext_len: usize,
+    /// encrypt: nonce and tag lengths produced (AES-SIV: 16 and 16)
+    pub nonce_len: usize,
+    pub tag_len: usize,
+    /// decrypt: reject nonces whose length differs from `nonce_len` (the real AES-SIV accepts any)
+    pub strict_nonce: bool,
+}
+impl zeroize::ZeroizeOnDrop for ModelCipher {}
+impl ModelCipher {
+    pub(crate) fn aes_siv_like() -> Self {
+        ModelCipher { decrypt_ok: true, plaintext: [0; 8], plaintext_len: 0, nonce_len: 16, tag_len: 16, strict_nonce: false }
+    }
+}
+impl Cipher for ModelCipher {
+    fn encrypt(&self, buffer: &mut [u8], plaintext_length: usize, associated_data: &[u8]) -> std::io::Result<EncryptResult> {
+        ENC_CALLS.store(ENC_CALLS.load(Relaxed).saturating_add(1), Relaxed);
+        ENC_AAD.0.store(associated_data.as_ptr() as usize, Relaxed);
+        ENC_AAD.1.store(associated_data.len(), Relaxed);
+        ENC_PT_LEN.store(plaintext_length, Relaxed);
+        // same interface behaviour as the real ciphers: nonce, then ciphertext (= plaintext
+        // length + tag); fails with WriteZero when the buffer cannot hold them
+        if buffer.len() < self.nonce_len + plaintext_length + self.tag_len {
+            return Err(std::io::ErrorKind::WriteZero.into());
+        }
+        buffer.copy_within(..plaintext_length, self.nonce_len);
+        Ok(EncryptResult { nonce_length: self.nonce_len, ciphertext_length: plaintext_length + self.tag_len })
+    }
+    fn decrypt(&self, nonce: &[u8], ciphertext: &[u8], associated_data: &[u8]) -> Result<Vec<u8>, DecryptError> {
+        DEC_CALLS.store(DEC_CALLS.load(Relaxed).saturating_add(1), Relaxed);
+        DEC_NONCE.0.store(nonce.as_ptr() as usize, Relaxed);
+        DEC_NONCE.1.store(nonce.len(), Relaxed);
+        DEC_CT.0.store(ciphertext.as_ptr() as usize, Relaxed);
+        DEC_CT.1.store(ciphertext.len(), Relaxed);
+        DEC_AAD.0.store(associated_data.as_ptr() as usize, Relaxed);
+        DEC_AAD.1.store(associated_data.len(), Relaxed);
+        if self.decrypt_ok && !(self.strict_nonce && nonce.len() != self.nonce_len) {
+            Ok(self.plaintext[..self.plaintext_len].to_vec())
+        } else {
+            Err(DecryptError)
+        }
+    }
+    fn key_bytes(&self) -> &[u8] {
+        &[]
+    }
+}
+/// any model cipher: decrypt result and plaintext (<= 8 bytes) unconstrained
+pub(crate) fn any_model_cipher() -> ModelCipher {
+    let plaintext_len: usize = kani::any();
+    kani::assume(plaintext_len <= 8);
+    ModelCipher { decrypt_ok: kani::any(), plaintext: kani::any(), plaintext_len, nonce_len: 16, tag_len: 16, strict_nonce: false }
+}
+
+// `NtpServerCookie::new_random` draws from the thread RNG (getrandom syscall + SIMD ChaCha: the
+// latter makes the Kani compiler ICE as soon as it is reachable). Stub: the cookie is an arbitrary
+// value chosen by the harness (any value the RNG could return). Needed by every harness from which
+// an NTPv5 builder is reachable by type, even when the NTPv5 arm is not taken.
+pub(crate) static SERVER_COOKIE: AtomicU64 = AtomicU64::new(0);
+pub(crate) fn server_cookie_stub() -> v5::NtpServerCookie {
+    v5::NtpServerCookie(SERVER_COOKIE.load(Relaxed).to_be_bytes())
+}
+pub(crate) fn pick_server_cookie() -> v5::NtpServerCookie {
+    SERVER_COOKIE.store(kani::any(), Relaxed);
+    server_cookie_stub()
+}
+
+/// clock whose reading is a harness-chosen value; steering entry points are not reachable from
+/// the response builders (asserted: they fail the proof if called)
+#[derive(Clone)]
+pub(crate) struct VClock(pub NtpTimestamp);
+impl NtpClock for VClock {
+    type Error = std::io::Error;
+    fn now(&self) -> Result<NtpTimestamp, Self::Error> {
+        Ok(self.0)
+    }
+    fn set_frequency(&self, _: f64) -> Result<NtpTimestamp, Self::Error> {
+        panic!("response builders must not steer the clock")
+    }
+    fn get_frequency(&self) -> Result<f64, Self::Error> {
+        panic!("response builders must not read the frequency")
+    }
+    fn step_clock(&self, _: NtpDuration) -> Result<NtpTimestamp, Self::Error> {
+        panic!("response builders must not steer the clock")
+    }
+    fn disable_ntp_algorithm(&self) -> Result<(), Self::Error> {
+        panic!("response builders must not steer the clock")
+    }
+    fn error_estimate_update(&self, _: NtpDuration, _: NtpDuration) -> Result<(), Self::Error> {
+        panic!("response builders must not steer the clock")
+    }
+    fn status_update(&self, _: NtpLeapIndicator) -> Result<(), Self::Error> {
+        panic!("response builders must not steer the clock")
+    }
+}
+
+pub(crate) fn raw(d: NtpDuration) -> i64 {
+    i64::from_be_bytes((NtpTimestamp::from_bits([0; 8]) + d).to_bits())
+}
+
+// `TimeSnapshot::root_dispersion` (f64 polynomial + sqrt + from_seconds) is not part of C18's
+// statement; callers here are checked against "some duration that depends only on the snapshot
+// and the reception time" (uninterpreted value fixed per harness). Its own behaviour (including
+// the debug_assert on a NaN variance inside NtpDuration::from_seconds) belongs to C22/C06.
+static RD: std::sync::atomic::AtomicI64 = std::sync::atomic::AtomicI64::new(0);
+pub(crate) fn root_dispersion_uf(_s: &TimeSnapshot, _now: NtpTimestamp) -> NtpDuration {
+    NtpDuration::from_bits(RD.load(Relaxed).to_be_bytes())
+}
+pub(crate) fn rd_value() -> NtpDuration {
+    RD.store(kani::any(), Relaxed);
+    NtpDuration::from_bits(RD.load(Relaxed).to_be_bytes())
+}
+fn zero_ts() -> NtpTimestamp {
+    NtpTimestamp::from_bits([0; 8])
+}
+fn zero_dur() -> NtpDuration {
+    NtpDuration::from_bits([0; 8])
+}
+
+// ================================================================ C18: V3/V4 header builders
+
+/// post<=statement: server mode; origin == request transmit; poll echoed; receive == reception
+/// time; transmit == clock reading; stratum / leap / reference id / root delay / precision are the
+/// server snapshot's; nothing else of the request is reflected (a second request that agrees on
+/// the two echoed fields gets the identical answer).
+#[kani::proof]
+#[kani::stub(crate::system::TimeSnapshot::root_dispersion, root_dispersion_uf)]
+fn c18_p_v4_header_timestamp_response() {
+    let info = any_server_info(false);
+    let req = any_header_v3v4();
+    let recv = any_ts();
+    let clock = VClock(any_ts());
+    let rd = rd_value();
+    let r = NtpHeaderV3V4::timestamp_response(&info, req, recv, &clock);
+    assert!(r.mode == NtpAssociationMode::Server);
+    assert!(r.origin_timestamp == req.transmit_timestamp);
+    assert!(r.poll == req.poll);
+    assert!(r.receive_timestamp == recv);
+    assert!(r.transmit_timestamp == clock.0);
+    assert!(r.stratum == info.ntp_snapshot.stratum);
+    assert!(r.leap == info.time_snapshot.leap_indicator);
+    assert!(r.reference_id == info.ntp_snapshot.reference_id);
+    assert!(r.root_delay == info.time_snapshot.root_delay);
+    assert!(r.root_dispersion == rd);
+    assert!(r.precision == info.time_snapshot.precision.log2());
+    // reference timestamp: derived from the reception time only (low 7 second bits and the
+    // fraction cleared), not from the request
+    let rt = u64::from_be_bytes(r.reference_timestamp.to_bits());
+    assert!(rt == u64::from_be_bytes(recv.to_bits()) & !((1u64 << 39) - 1));
+    // non-reflection: any other request with the same transmit timestamp and poll gets the same header
+    let mut req2 = any_header_v3v4();
+    req2.transmit_timestamp = req.transmit_timestamp;
+    req2.poll = req.poll;
+    let r2 = NtpHeaderV3V4::timestamp_response(&info, req2, recv, &clock);
+    assert!(r2 == r);
+    kani::cover!(req.mode != NtpAssociationMode::Client && r.stratum == 16, "reachable");
+}
+
+/// KISS answers (RATE / DENY / NTS-NAK): server mode, stratum 0, kiss code in the reference id,
+/// origin == request transmit, no server timestamps; every other field is a constant (nothing of
+/// the server state or of the request).
+fn check_kiss_v4(r: NtpHeaderV3V4, req: NtpHeaderV3V4, code: &[u8; 4]) {
+    assert!(r.mode == NtpAssociationMode::Server);
+    assert!(r.stratum == 0);
+    assert!(r.reference_id.to_bytes() == *code);
+    assert!(r.origin_timestamp == req.transmit_timestamp);
+    assert!(r.receive_timestamp == zero_ts());
+    assert!(r.transmit_timestamp == zero_ts());
+    assert!(r.reference_timestamp == zero_ts());
+    assert!(r.root_delay == zero_dur() && r.root_dispersion == zero_dur());
+    assert!(r.leap == NtpLeapIndicator::NoWarning && r.precision == 0);
+}
+#[kani::proof]
+fn c18_p_v4_header_kiss_responses() {
+    let req = any_header_v3v4();
+    let mut req2 = any_header_v3v4();
+    req2.transmit_timestamp = req.transmit_timestamp;
+    let r = NtpHeaderV3V4::rate_limit_response(req);
+    check_kiss_v4(r, req, b"RATE");
+    assert!(NtpHeaderV3V4::rate_limit_response(req2) == r);
+    let d = NtpHeaderV3V4::deny_response(req);
+    check_kiss_v4(d, req, b"DENY");
+    assert!(NtpHeaderV3V4::deny_response(req2) == d);
+    let n = NtpHeaderV3V4::nts_nak_response(req);
+    check_kiss_v4(n, req, b"NTSN");
+    assert!(NtpHeaderV3V4::nts_nak_response(req2) == n);
+    kani::cover!(req.stratum != 0 && req.poll != PollInterval::from_byte(0), "reachable");
+}
+/// canary (false claim): a KISS answer echoes the request's poll like a time answer does.
+#[kani::proof]
+fn c18_canary_v4_kiss_echoes_poll() {
+    let req = any_header_v3v4();
+    assert!(NtpHeaderV3V4::deny_response(req).poll == req.poll);
+}
+
+// ================================================================ C18: packet-level builders
+// bounded: each of the three field lists of the request holds <= 2 fields of any kind with
+// payloads of <= 4 bytes (contents unconstrained); MAC optional.
+
+pub(crate) type EF<'a> = ExtensionField<'a>;
+
+/// a field list of length 0..=2
+pub(crate) fn any_fields<'a, const N: usize>(b0: &'a [u8; N], b1: &'a [u8; N]) -> Vec<EF<'a>> {
+    // vec! + truncate: Vec::push growth with a symbolic length is very slow in CBMC
+    let mut v = vec![any_field(b0), any_field(b1)];
+    let n: usize = kani::any();
+    kani::assume(n <= 2);
+    v.truncate(n);
+    v
+}
+pub(crate) fn any_mac<'a>(buf: &'a [u8; 4]) -> Option<Mac<'a>> {
+    if kani::any() {
+        Some(Mac::deserialize(buf).unwrap())
+    } else {
+        None
+    }
+}
+pub(crate) fn any_efdata<'a, const N: usize>(bufs: &'a [[u8; N]; 6]) -> ExtensionFieldData<'a> {
+    ExtensionFieldData {
+        authenticated: any_fields(&bufs[0], &bufs[1]),
+        encrypted: any_fields(&bufs[2], &bufs[3]),
+        untrusted: any_fields(&bufs[4], &bufs[5]),
+    }
+}
+
+/// SPEC (from the statement): the unique-identifier fields of the request's unauthenticated and
+/// authenticated lists, in order; nothing from `encrypted`, no other kind.
+pub(crate) fn spec_uid_echo<'a>(untrusted: &[EF<'a>], authenticated: &[EF<'a>]) -> Vec<EF<'a>> {
+    let mut v = Vec::new();
+    for f in untrusted.iter().chain(authenticated.iter()) {
+        if let EF::UniqueIdentifier(_) = f {
+            v.push(f.clone());
+        }
+    }
+    v
+}
+/// SPEC for NTPv5 time answers: unique identifiers echoed; each reference-id request whose window
+/// lies in the server's filter answered with exactly that window; one draft identification last.
+pub(crate) fn spec_v5_time_fields<'a>(untrusted: &[EF<'a>], authenticated: &[EF<'a>], filter: &'a BloomFilter) -> Vec<EF<'a>> {
+    let mut v = Vec::new();
+    for f in untrusted.iter().chain(authenticated.iter()) {
+        match f {
+            EF::UniqueIdentifier(_) => v.push(f.clone()),
+            EF::ReferenceIdRequest(req) => {
+                let (o, l) = (req.offset() as usize, req.payload_len() as usize);
+                if o + l <= 512 {
+                    v.push(EF::ReferenceIdResponse(v5::extension_fields::ReferenceIdResponse::decode(
+                        &filter.as_bytes()[o..o + l],
+                    )));
+                }
+            }
+            _ => {}
+        }
+    }
+    v.push(EF::DraftIdentification(Cow::Borrowed(v5::DRAFT_VERSION)));
+    v
+}
+pub(crate) fn with_draft<'a>(mut v: Vec<EF<'a>>) -> Vec<EF<'a>> {
+    v.push(EF::DraftIdentification(Cow::Borrowed(v5::DRAFT_VERSION)));
+    v
+}
+
+/// a representative request with a FIXED shape and symbolic contents (the versions with symbolic
+/// kinds and lengths are the other `_tb_` harnesses below):
+///   unauthenticated: unique identifier(4) | cookie(4) | unknown(type t, 4) | reference-id request
+///   authenticated:   unique identifier(4) | placeholder(8) | invalid authenticator marker
+///   encrypted:       unique identifier(4) | cookie(4)
+pub(crate) fn shaped_efdata<'a>(b: &'a [[u8; 4]; 6], t: u16) -> ExtensionFieldData<'a> {
+    ExtensionFieldData {
+        untrusted: vec![
+            EF::UniqueIdentifier(Cow::Borrowed(&b[0][..])),
+            EF::NtsCookie(Cow::Borrowed(&b[1][..])),
+            EF::Unknown { type_id: t, data: Cow::Borrowed(&b[2][..]) },
+            EF::ReferenceIdRequest(v5::extension_fields::ReferenceIdRequest::new(4, 8).unwrap()),
+        ],
+        authenticated: vec![
+            EF::UniqueIdentifier(Cow::Borrowed(&b[3][..])),
+            EF::NtsCookiePlaceholder { cookie_length: 8 },
+            EF::InvalidNtsEncryptedField,
+        ],
+        encrypted: vec![EF::UniqueIdentifier(Cow::Borrowed(&b[4][..])), EF::NtsCookie(Cow::Borrowed(&b[5][..]))],
+    }
+}
+
+/// NTPv4, shaped request, every builder: the answer's fields are exactly the two unique
+/// identifiers of the unauthenticated and authenticated parts (NTS variants: the authenticated
+/// one only, kept authenticated); nothing of the encrypted part, cookie, unknown field, MAC.
+#[kani::proof]
+#[kani::unwind(8)]
+#[kani::stub(crate::system::TimeSnapshot::root_dispersion, root_dispersion_uf)]
+#[kani::stub(crate::packet::v5::NtpServerCookie::new_random, server_cookie_stub)]
+fn c18_tb_v4_packet_shaped_request() {
+    let b: [[u8; 4]; 6] = kani::any();
+    let macbuf: [u8; 4] = kani::any();
+    let t: u16 = kani::any();
+    let header = any_header_v3v4();
+    let mk = || NtpPacket { header: NtpHeader::V4(header), efdata: shaped_efdata(&b, t), mac: any_mac(&macbuf) };
+    let uid_u = EF::UniqueIdentifier(Cow::Borrowed(&b[0][..]));
+    let uid_a = EF::UniqueIdentifier(Cow::Borrowed(&b[3][..]));
+    let info = any_server_info(false);
+    let (recv, clock, _rd) = (any_ts(), VClock(any_ts()), rd_value());
+    let r = NtpPacket::timestamp_response(info, mk(), recv, &clock);
+    let mut h = NtpHeaderV3V4::timestamp_response(&info, header, recv, &clock);
+    if header.reference_timestamp == v5::UPGRADE_TIMESTAMP {
+        h.reference_timestamp = v5::UPGRADE_TIMESTAMP;
+    }
+    assert!(r.header == NtpHeader::V4(h) && r.mac.is_none());
+    assert!(r.efdata.authenticated.is_empty() && r.efdata.encrypted.is_empty());
+    assert!(r.efdata.untrusted.len() == 2 && r.efdata.untrusted[0] == uid_u && r.efdata.untrusted[1] == uid_a);
+    for which in 0..3u8 {
+        let (r, h) = match which {
+            0 => (NtpPacket::deny_response(mk()), NtpHeaderV3V4::deny_response(header)),
+            1 => (NtpPacket::rate_limit_response(mk()), NtpHeaderV3V4::rate_limit_response(header)),
+            _ => (NtpPacket::nts_nak_response(mk()), NtpHeaderV3V4::nts_nak_response(header)),
+        };
+        assert!(r.header == NtpHeader::V4(h) && r.mac.is_none());
+        assert!(r.efdata.authenticated.is_empty() && r.efdata.encrypted.is_empty());
+        assert!(r.efdata.untrusted.len() == 2 && r.efdata.untrusted[0] == uid_u && r.efdata.untrusted[1] == uid_a);
+    }
+    for which in 0..2u8 {
+        let (r, h) = match which {
+            0 => (NtpPacket::nts_deny_response(mk()), NtpHeaderV3V4::deny_response(header)),
+            _ => (NtpPacket::nts_rate_limit_response(mk()), NtpHeaderV3V4::rate_limit_response(header)),
+        };
+        assert!(r.header == NtpHeader::V4(h) && r.mac.is_none());
+        assert!(r.efdata.untrusted.is_empty() && r.efdata.encrypted.is_empty());
+        assert!(r.efdata.authenticated.len() == 1 && r.efdata.authenticated[0] == uid_a);
+    }
+    // NTPv3: nothing at all is echoed
+    let r3 = NtpPacket::timestamp_response(
+        info,
+        NtpPacket { header: NtpHeader::V3(header), efdata: shaped_efdata(&b, t), mac: any_mac(&macbuf) },
+        recv,
+        &clock,
+    );
+    assert!(matches!(r3.header, NtpHeader::V3(_)) && r3.mac.is_none() && r3.efdata == ExtensionFieldData::default());
+    kani::cover!(header.mode == NtpAssociationMode::Client, "reachable");
+}
+
+/// NTPv3: the answer has the request's version, the header of the header-level contract, no
+/// extension fields and no MAC whatever the request carried.
+#[kani::proof]
+#[kani::unwind(26)]
+#[kani::stub(crate::system::TimeSnapshot::root_dispersion, root_dispersion_uf)]
+#[kani::stub(crate::packet::v5::NtpServerCookie::new_random, server_cookie_stub)]
+fn c18_tb_v3_packet_responses() {
+    let bufs: [[u8; 4]; 6] = kani::any();
+    let macbuf: [u8; 4] = kani::any();
+    let header = any_header_v3v4();
+    let mk = || NtpPacket { header: NtpHeader::V3(header), efdata: any_efdata(&bufs), mac: any_mac(&macbuf) };
+    let info = any_server_info(false);
+    let (recv, clock, _rd) = (any_ts(), VClock(any_ts()), rd_value());
+    let empty = ExtensionFieldData::default();
+    let r = NtpPacket::timestamp_response(info, mk(), recv, &clock);
+    assert!(r.header == NtpHeader::V3(NtpHeaderV3V4::timestamp_response(&info, header, recv, &clock)));
+    assert!(r.efdata == empty && r.mac.is_none());
+    let r = NtpPacket::deny_response(mk());
+    assert!(r.header == NtpHeader::V3(NtpHeaderV3V4::deny_response(header)) && r.efdata == empty && r.mac.is_none());
+    let r = NtpPacket::rate_limit_response(mk());
+    assert!(r.header == NtpHeader::V3(NtpHeaderV3V4::rate_limit_response(header)) && r.efdata == empty && r.mac.is_none());
+    kani::cover!(true, "reachable");
+}
+
+/// NTPv4 time answer: version 4; header per the header contract (the reference timestamp is the
+/// fixed NTPv5-upgrade marker iff the request carried that marker); fields == spec_uid_echo, all
+/// unauthenticated; nothing from `encrypted`; no MAC.
+#[kani::proof]
+#[kani::unwind(26)]
+#[kani::stub(crate::system::TimeSnapshot::root_dispersion, root_dispersion_uf)]
+#[kani::stub(crate::packet::v5::NtpServerCookie::new_random, server_cookie_stub)]
+fn c18_tb_v4_packet_timestamp_response() {
+    let bufs: [[u8; 4]; 6] = kani::any();
+    let macbuf: [u8; 4] = kani::any();
+    let header = any_header_v3v4();
+    let input = NtpPacket { header: NtpHeader::V4(header), efdata: any_efdata(&bufs), mac: any_mac(&macbuf) };
+    let expect = spec_uid_echo(&input.efdata.untrusted, &input.efdata.authenticated);
+    let info = any_server_info(false);
+    let (recv, clock, _rd) = (any_ts(), VClock(any_ts()), rd_value());
+    let n_enc = input.efdata.encrypted.len();
+    let r = NtpPacket::timestamp_response(info, input, recv, &clock);
+    let mut h = NtpHeaderV3V4::timestamp_response(&info, header, recv, &clock);
+    if header.reference_timestamp == v5::UPGRADE_TIMESTAMP {
+        h.reference_timestamp = v5::UPGRADE_TIMESTAMP;
+    }
+    assert!(r.header == NtpHeader::V4(h));
+    assert!(r.mac.is_none());
+    assert!(r.efdata.authenticated.is_empty() && r.efdata.encrypted.is_empty());
+    assert!(r.efdata.untrusted == expect);
+    kani::cover!(r.efdata.untrusted.len() == 4, "four echoed identifiers reachable");
+    kani::cover!(r.efdata.untrusted.is_empty() && n_enc == 2, "nothing echoed although fields were present");
+}
+
+/// NTPv4 DENY / RATE / NTS-NAK (and the NTS variants of DENY / RATE): KISS header per the header
+/// contract; only unique identifiers echoed (NTS variants: those of the authenticated list, kept
+/// authenticated); nothing from `encrypted`; no MAC.
+#[kani::proof]
+#[kani::unwind(26)]
+#[kani::stub(crate::packet::v5::NtpServerCookie::new_random, server_cookie_stub)]
+fn c18_tb_v4_packet_kiss_responses() {
+    let bufs: [[u8; 4]; 6] = kani::any();
+    let macbuf: [u8; 4] = kani::any();
+    let header = any_header_v3v4();
+    let input = NtpPacket { header: NtpHeader::V4(header), efdata: any_efdata(&bufs), mac: any_mac(&macbuf) };
+    let expect = spec_uid_echo(&input.efdata.untrusted, &input.efdata.authenticated);
+    let expect_auth = spec_uid_echo(&[], &input.efdata.authenticated);
+    let which: u8 = kani::any();
+    kani::assume(which < 5);
+    let (r, h, nts) = match which {
+        0 => (NtpPacket::deny_response(input), NtpHeaderV3V4::deny_response(header), false),
+        1 => (NtpPacket::rate_limit_response(input), NtpHeaderV3V4::rate_limit_response(header), false),
+        2 => (NtpPacket::nts_nak_response(input), NtpHeaderV3V4::nts_nak_response(header), false),
+        3 => (NtpPacket::nts_deny_response(input), NtpHeaderV3V4::deny_response(header), true),
+        _ => (NtpPacket::nts_rate_limit_response(input), NtpHeaderV3V4::rate_limit_response(header), true),
+    };
+    assert!(r.header == NtpHeader::V4(h));
+    assert!(r.mac.is_none() && r.efdata.encrypted.is_empty());
+    if nts {
+        assert!(r.efdata.untrusted.is_empty() && r.efdata.authenticated == expect_auth);
+    } else {
+        assert!(r.efdata.authenticated.is_empty() && r.efdata.untrusted == expect);
+    }
+    kani::cover!(which == 2 && r.efdata.untrusted.len() == 3, "reachable");
+    kani::cover!(which == 4 && r.efdata.authenticated.len() == 2, "reachable (nts)");
+}
+
+// ================================================================ C17: a request-sized buffer suffices
+// Composition: decoder contract (c23_b_efdata_deserialize_nokeys_*: an accepted request of N bytes
+// is header + sum of its fields' wire sizes + MAC tail), builder contract (C18) and the real
+// encoder. Bound: <= 2 request fields, payloads <= 8 bytes.
+
+/// SPEC: wire size of a decoded request field (header + payload, padded to a word)
+pub(crate) fn spec_wire(f: &EF<'_>) -> usize {
+    let payload = match f {
+        EF::UniqueIdentifier(d) | EF::NtsCookie(d) => d.len(),
+        EF::Unknown { data, .. } => data.len(),
+        EF::NtsCookiePlaceholder { cookie_length } => *cookie_length as usize,
+        EF::DraftIdentification(d) => d.len(),
+        EF::ReferenceIdRequest(r) => r.payload_len() as usize,
+        EF::ReferenceIdResponse(r) => r.bytes().len(),
+        EF::InvalidNtsEncryptedField => 0,
+        EF::Padding(n) => n.saturating_sub(4),
+    };
+    (payload + 4 + 3) / 4 * 4
+}
+/// a field as the NTPv4 decoder returns it without keys: payload (incl. padding) a multiple of 4
+fn decoded_v4_field<'a>(buf: &'a [u8; 8]) -> EF<'a> {
+    let n: usize = kani::any();
+    kani::assume(n == 0 || n == 4 || n == 8);
+    match kani::any::<u8>() {
+        0 => EF::UniqueIdentifier(Cow::Borrowed(&buf[..n])),
+        1 => EF::NtsCookie(Cow::Borrowed(&buf[..n])),
+        2 => EF::NtsCookiePlaceholder { cookie_length: n as u16 },
+        _ => {
+            let t: u16 = kani::any();
+            kani::assume(!matches!(t, 0x104 | 0x204 | 0x304 | 0x404));
+            EF::Unknown { type_id: t, data: Cow::Borrowed(&buf[..n]) }
+        }
+    }
+}
+/// server snapshot whose root delay / dispersion are encodable (non-negative, < 2^48 units):
+/// what the header encoder asserts; established by the system side (C33/C39), assumed here
+fn encodable_server_info() -> NtpServerInfo {
+    let info = any_server_info(false);
+    let d = raw(info.time_snapshot.root_delay);
+    kani::assume(d >= 0 && d < (1i64 << 48));
+    let r = raw(rd_value());
+    kani::assume(r >= 0 && r < (1i64 << 48));
+    info
+}
+
+/// LEMMA over the contracts (pure arithmetic; decoder contract: an accepted NTPv4 request is
+/// 48 + sum(4 + payload_i) + mac with every payload a multiple of 4 and more than 24 bytes left at
+/// the start of every field; builder contract C18: the answer echoes exactly the unique
+/// identifiers; encoder contract C14: field i costs roundup4(max(payload_i + 4, min_i)) with
+/// min = 16, last field 28): the answer is not longer than the request, for up to 4 fields of any
+/// payload length. EXPECTED TO FAIL (finding): e.g. two unique identifiers with 4-byte payloads
+/// and a 24-byte tail: request 88 bytes, answer 92 bytes.
+#[kani::proof]
+#[kani::unwind(6)]
+fn c17_b_v4_size_lemma() {
+    let n: usize = kani::any();
+    kani::assume(n <= 4);
+    let payload: [u16; 4] = kani::any();
+    let is_uid: [bool; 4] = kani::any();
+    let mac: usize = kani::any();
+    kani::assume(mac == 0 || (mac >= 4 && mac <= 24));
+    let mut request = 48 + mac;
+    let mut i = n;
+    // walk backwards so that `left` is the number of bytes from field i to the end
+    let mut left = mac;
+    while i > 0 {
+        i -= 1;
+        kani::assume(payload[i] % 4 == 0 && payload[i] <= 65_528);
+        left += 4 + payload[i] as usize;
+        kani::assume(left > 24); // the decoder only parses a field while more than 24 bytes remain
+        request += 4 + payload[i] as usize;
+    }
+    let mut echoed = 0;
+    for k in 0..4 {
+        if k < n && is_uid[k] {
+            echoed += 1;
+        }
+    }
+    let mut response = 48;
+    let mut seen = 0;
+    for k in 0..4 {
+        if k < n && is_uid[k] {
+            seen += 1;
+            let min = if seen == echoed { 28 } else { 16 };
+            response += (core::cmp::max(payload[k] as usize + 4, min) + 3) / 4 * 4;
+        }
+    }
+    assert!(response <= request, "C17: the answer is not longer than the request");
+    kani::cover!(n == 4 && echoed == 4, "four echoed identifiers reachable");
+}
+/// the same lemma for requests that themselves respect RFC 7822 (every field >= 16 bytes, and a
+/// last field >= 28 bytes when no MAC follows): holds for all payload lengths.
+#[kani::proof]
+#[kani::unwind(6)]
+fn c17_p_v4_size_lemma_rfc7822() {
+    let n: usize = kani::any();
+    kani::assume(n <= 4);
+    let payload: [u16; 4] = kani::any();
+    let is_uid: [bool; 4] = kani::any();
+    let mac: usize = kani::any();
+    kani::assume(mac == 0 || (mac >= 4 && mac <= 24));
+    let mut request = 48 + mac;
+    for k in 0..4 {
+        if k < n {
+            kani::assume(payload[k] % 4 == 0 && payload[k] <= 65_528 && payload[k] >= 12);
+            if k + 1 == n && mac == 0 {
+                kani::assume(payload[k] >= 24);
+            }
+            request += 4 + payload[k] as usize;
+        }
+    }
+    let mut echoed = 0;
+    for k in 0..4 {
+        if k < n && is_uid[k] {
+            echoed += 1;
+        }
+    }
+    let mut response = 48;
+    let mut seen = 0;
+    for k in 0..4 {
+        if k < n && is_uid[k] {
+            seen += 1;
+            let min = if seen == echoed { 28 } else { 16 };
+            response += (core::cmp::max(payload[k] as usize + 4, min) + 3) / 4 * 4;
+        }
+    }
+    // the echoed last identifier may be grown to 28 when the request's MAC is dropped, but the
+    // dropped MAC (>= 4.. bytes) does not always pay for it: require the precise statement
+    if mac == 0 {
+        assert!(response <= request);
+    }
+    kani::cover!(n == 4 && echoed == 4 && mac == 0, "four echoed identifiers reachable");
+}
+
+/// NTPv4 time answer to an ACCEPTED request (<= 2 fields as decoded without keys, optional MAC
+/// tail of 4..=24 bytes, every field started with more than 24 bytes left as the decoder
+/// requires) serialises into a buffer as long as the request.
+/// EXPECTED TO FAIL (finding): echoed unique identifiers are re-encoded with the RFC 7822
+/// minimum sizes (16, last field 28), so short identifier fields make the answer longer.
+#[kani::proof]
+#[kani::unwind(34)]
+#[kani::stub(crate::system::TimeSnapshot::root_dispersion, root_dispersion_uf)]
+#[kani::stub(crate::packet::v5::NtpServerCookie::new_random, server_cookie_stub)]
+fn c17_tb_v4_time_response_fits_request() {
+    let bufs: [[u8; 8]; 2] = kani::any();
+    let macbuf: [u8; 24] = kani::any();
+    let nf: usize = kani::any();
+    kani::assume(nf <= 2);
+    let mut untrusted = Vec::new();
+    if nf >= 1 {
+        untrusted.push(decoded_v4_field(&bufs[0]));
+    }
+    if nf == 2 {
+        untrusted.push(decoded_v4_field(&bufs[1]));
+    }
+    let mac_len: usize = kani::any();
+    kani::assume(mac_len == 0 || (mac_len >= 4 && mac_len <= 24));
+    let mac = if mac_len == 0 { None } else { Some(Mac::deserialize(&macbuf[..mac_len]).unwrap()) };
+    // the request's size per the decoder contract, and the decoder's "more than 24 bytes left" rule
+    let w0 = if nf >= 1 { spec_wire(&untrusted[0]) } else { 0 };
+    let w1 = if nf == 2 { spec_wire(&untrusted[1]) } else { 0 };
+    kani::assume(nf < 1 || w0 + w1 + mac_len > 24);
+    kani::assume(nf < 2 || w1 + mac_len > 24);
+    let request_len = 48 + w0 + w1 + mac_len;
+    let header = any_header_v3v4();
+    let input = NtpPacket {
+        header: NtpHeader::V4(header),
+        efdata: ExtensionFieldData { authenticated: vec![], encrypted: vec![], untrusted },
+        mac,
+    };
+    let info = encodable_server_info();
+    let response = NtpPacket::timestamp_response(info, input, any_ts(), &VClock(any_ts()));
+    let mut out = [0u8; 128];
+    let mut cur = Cursor::new(&mut out[..request_len]);
+    let res = response.serialize(&mut cur, &NoCipher, Some(request_len));
+    assert!(res.is_ok(), "C17: the answer fits a request-sized buffer");
+    kani::cover!(nf == 2 && mac_len == 24, "two fields and a MAC tail reachable");
+}
+/// the same claim restricted to requests whose fields obey RFC 7822's own minimum sizes
+/// (every field >= 16 bytes, last field before a missing MAC >= 28): holds.
+#[kani::proof]
+#[kani::unwind(34)]
+#[kani::stub(crate::system::TimeSnapshot::root_dispersion, root_dispersion_uf)]
+#[kani::stub(crate::packet::v5::NtpServerCookie::new_random, server_cookie_stub)]
+fn c17_tb_v4_time_response_fits_rfc7822_request() {
+    let bufs: [[u8; 24]; 2] = kani::any();
+    let nf: usize = kani::any();
+    kani::assume(nf <= 2);
+    let l0: usize = kani::any();
+    let l1: usize = kani::any();
+    kani::assume((l0 == 12 || l0 == 16 || l0 == 24) && (l1 == 12 || l1 == 24));
+    let mut untrusted = Vec::new();
+    let kind_uid: [bool; 2] = kani::any();
+    if nf >= 1 {
+        untrusted.push(if kind_uid[0] { EF::UniqueIdentifier(Cow::Borrowed(&bufs[0][..l0])) } else { EF::NtsCookie(Cow::Borrowed(&bufs[0][..l0])) });
+    }
+    if nf == 2 {
+        untrusted.push(if kind_uid[1] { EF::UniqueIdentifier(Cow::Borrowed(&bufs[1][..l1])) } else { EF::NtsCookie(Cow::Borrowed(&bufs[1][..l1])) });
+    }
+    // last field at least 28 bytes (no MAC follows)
+    kani::assume(nf != 1 || l0 == 24);
+    kani::assume(nf != 2 || l1 == 24);
+    let request_len = 48 + if nf >= 1 { 4 + l0 } else { 0 } + if nf == 2 { 4 + l1 } else { 0 };
+    let input = NtpPacket {
+        header: NtpHeader::V4(any_header_v3v4()),
+        efdata: ExtensionFieldData { authenticated: vec![], encrypted: vec![], untrusted },
+        mac: None,
+    };
+    let info = encodable_server_info();
+    let response = NtpPacket::timestamp_response(info, input, any_ts(), &VClock(any_ts()));
+    let mut out = [0u8; 128];
+    let mut cur = Cursor::new(&mut out[..request_len]);
+    assert!(response.serialize(&mut cur, &NoCipher, Some(request_len)).is_ok());
+    assert!(cur.position() as usize <= request_len);
+    kani::cover!(nf == 2 && kind_uid[0] && kind_uid[1] && cur.position() as usize == request_len, "two identifiers echoed, same size");
+}
+
+// ================================================================ C19 (packet side): nts_timestamp_response
+// `KeySet::encode_cookie` (AES-SIV encryption of the session keys) is replaced by its length
+// contract: it returns some byte string whose length is fixed for the harness (a fresh cookie's
+// size depends only on the algorithm's key sizes) and counts its calls. Its own contract
+// (fresh cookie decodes to the same keys) is C26's.
+pub(crate) static COOKIE_CALLS: AtomicU8 = AtomicU8::new(0);
+pub(crate) static COOKIE_LEN: AtomicUsize = AtomicUsize::new(0);
+pub(crate) fn encode_cookie_stub(_ks: &KeySet, _c: &DecodedServerCookie) -> Vec<u8> {
+    COOKIE_CALLS.store(COOKIE_CALLS.load(Relaxed).saturating_add(1), Relaxed);
+    let mut v = Vec::new();
+    let n = COOKIE_LEN.load(Relaxed);
+    let mut i = 0;
+    while i < n {
+        v.push(kani::any());
+        i += 1;
+    }
+    v
+}
+/// a key set built through the public loader (the fields are private to keyset.rs): one fixed key
+pub(crate) fn some_keyset() -> std::sync::Arc<KeySet> {
+    let mut bytes = [0u8; 20 + 64];
+    bytes[19] = 1; // one key; time 0, id_offset 0, primary 0
+    let mut rd: &[u8] = &bytes;
+    crate::keyset::KeySetProvider::load(&mut rd, 1).unwrap().0.get()
+}
+pub(crate) fn model_cookie() -> DecodedServerCookie {
+    DecodedServerCookie {
+        algorithm: crate::nts::AeadAlgorithm::AeadAesSivCmac256,
+        s2c: Box::new(ModelCipher::aes_siv_like()),
+        c2s: Box::new(ModelCipher::aes_siv_like()),
+    }
+}
+/// SPEC: how many fresh cookies an answer may carry: one per cookie/placeholder field among the
+/// first MAX_COOKIES fields of the request's authenticated+encrypted parts whose size can hold a
+/// fresh cookie of `fresh` bytes.
+fn spec_fresh_cookies(auth: &[EF<'_>], enc: &[EF<'_>], fresh: usize) -> usize {
+    let mut n = 0;
+    let mut seen = 0;
+    for f in auth.iter().chain(enc.iter()) {
+        if seen == MAX_COOKIES {
+            break;
+        }
+        seen += 1;
+        match f {
+            EF::NtsCookie(c) if fresh <= c.len() => n += 1,
+            EF::NtsCookiePlaceholder { cookie_length } if fresh <= *cookie_length as usize => n += 1,
+            _ => {}
+        }
+    }
+    n
+}
+fn all_fresh_cookies(v: &[EF<'_>], fresh: usize) -> bool {
+    for f in v {
+        match f {
+            EF::NtsCookie(c) if c.len() == fresh => {}
+            _ => return false,
+        }
+    }
+    true
+}
+
+/// NTS time answer, NTPv4 (bounded: request lists <= 2 fields each, payloads <= 4 bytes, fresh
+/// cookie length 0..=4): header per the header contract; authenticated part == the unique
+/// identifiers of the request's authenticated part only; encrypted part == exactly
+/// spec_fresh_cookies fresh cookies (each no longer than the field it replaces, never more than
+/// one per cookie/placeholder, <= 8); nothing unauthenticated; nothing else reflected; no MAC.
+#[kani::proof]
+#[kani::unwind(26)]
+#[kani::stub(crate::system::TimeSnapshot::root_dispersion, root_dispersion_uf)]
+#[kani::stub(crate::packet::v5::NtpServerCookie::new_random, server_cookie_stub)]
+#[kani::stub(crate::keyset::KeySet::encode_cookie, encode_cookie_stub)]
+fn c19_tb_v4_nts_timestamp_response() {
+    let bufs: [[u8; 4]; 6] = kani::any();
+    let macbuf: [u8; 4] = kani::any();
+    let header = any_header_v3v4();
+    let input = NtpPacket { header: NtpHeader::V4(header), efdata: any_efdata(&bufs), mac: any_mac(&macbuf) };
+    let fresh: usize = kani::any();
+    kani::assume(fresh <= 4);
+    COOKIE_LEN.store(fresh, Relaxed);
+    COOKIE_CALLS.store(0, Relaxed);
+    let expect_auth = spec_uid_echo(&[], &input.efdata.authenticated);
+    let expect_n = spec_fresh_cookies(&input.efdata.authenticated, &input.efdata.encrypted, fresh);
+    let info = any_server_info(false);
+    let (recv, clock, _rd) = (any_ts(), VClock(any_ts()), rd_value());
+    let keyset = some_keyset();
+    let cookie = model_cookie();
+    let r = NtpPacket::nts_timestamp_response(info, input, recv, &clock, &cookie, &keyset);
+    assert!(r.header == NtpHeader::V4(NtpHeaderV3V4::timestamp_response(&info, header, recv, &clock)));
+    assert!(r.mac.is_none() && r.efdata.untrusted.is_empty());
+    assert!(r.efdata.authenticated == expect_auth);
+    assert!(r.efdata.encrypted.len() == expect_n && expect_n <= MAX_COOKIES);
+    assert!(all_fresh_cookies(&r.efdata.encrypted, fresh));
+    kani::cover!(expect_n == 4, "four fresh cookies reachable");
+    kani::cover!(expect_n == 0 && COOKIE_CALLS.load(Relaxed) == 2, "too-small placeholders skipped");
+}
+/// the cap: a request with 10 placeholders gets at most MAX_COOKIES (8) fresh cookies.
+#[kani::proof]
+#[kani::unwind(12)]
+#[kani::stub(crate::system::TimeSnapshot::root_dispersion, root_dispersion_uf)]
+#[kani::stub(crate::packet::v5::NtpServerCookie::new_random, server_cookie_stub)]
+#[kani::stub(crate::keyset::KeySet::encode_cookie, encode_cookie_stub)]
+fn c19_b_v4_nts_cookie_cap() {
+    let len: u16 = kani::any();
+    let mut authenticated = Vec::new();
+    let mut i = 0;
+    while i < 10 {
+        authenticated.push(EF::NtsCookiePlaceholder { cookie_length: len });
+        i += 1;
+    }
+    let input = NtpPacket {
+        header: NtpHeader::V4(any_header_v3v4()),
+        efdata: ExtensionFieldData { authenticated, encrypted: vec![], untrusted: vec![] },
+        mac: None,
+    };
+    COOKIE_LEN.store(0, Relaxed);
+    let _rd = rd_value();
+    let keyset = some_keyset();
+    let cookie = model_cookie();
+    let r = NtpPacket::nts_timestamp_response(any_server_info(false), input, any_ts(), &VClock(any_ts()), &cookie, &keyset);
+    assert!(r.efdata.encrypted.len() == MAX_COOKIES);
+    assert!(r.efdata.authenticated.is_empty());
+    kani::cover!(true, "reachable");
+}
+
+// ================================================================ C23 / C22: header decoder is total
+
+/// no panic + termination for every input of length <= 48 (complete: loop-free);
+/// Ok <=> length >= 48; consumed == 48; every field equals its wire bytes.
+#[kani::proof]
+fn c23_p_v4_header_deserialize_total() {
+    let data: [u8; 48] = kani::any();
+    let len: usize = kani::any();
+    kani::assume(len <= 48);
+    let d = &data[..len];
+    match NtpHeaderV3V4::deserialize(d) {
+        Ok((h, n)) => {
+            assert!(len == 48 && n == 48);
+            assert!(h.leap.to_bits() == d[0] >> 6 && h.mode.to_bits() == d[0] & 7);
+            assert!(h.leap != NtpLeapIndicator::Unknown);
+            assert!(h.stratum == d[1] && h.poll.as_byte() == d[2] && h.precision == d[3] as i8);
+            assert!(raw(h.root_delay) == (u32::from_be_bytes([d[4], d[5], d[6], d[7]]) as i64) << 16);
+            assert!(raw(h.root_dispersion) == (u32::from_be_bytes([d[8], d[9], d[10], d[11]]) as i64) << 16);
+            assert!(h.reference_id.to_bytes()[..] == d[12..16]);
+            assert!(h.reference_timestamp.to_bits()[..] == d[16..24]);
+            assert!(h.origin_timestamp.to_bits()[..] == d[24..32]);
+            assert!(h.receive_timestamp.to_bits()[..] == d[32..40]);
+            assert!(h.transmit_timestamp.to_bits()[..] == d[40..48]);
+        }
+        Err(_) => assert!(len < 48),
+    }
+    kani::cover!(len == 48, "accepting path reachable");
+    kani::cover!(len == 0, "empty input reachable");
+}
+/// longer inputs (49..=64, bounded): verdict and header depend on the first 48 bytes only.
+#[kani::proof]
+fn c23_b_v4_header_deserialize_longer() {
+    let data: [u8; 64] = kani::any();
+    let len: usize = kani::any();
+    kani::assume(len >= 48 && len <= 64);
+    let (h, n) = NtpHeaderV3V4::deserialize(&data[..len]).unwrap();
+    let (h2, _) = NtpHeaderV3V4::deserialize(&data[..48]).unwrap();
+    assert!(n == 48 && h == h2);
+    kani::cover!(len == 64, "reachable");
+}
+#[kani::proof]
+fn c23_canary_v4_header_accepts_short() {
+    let data: [u8; 48] = kani::any();
+    let len: usize = kani::any();
+    kani::assume(len <= 48);
+    assert!(NtpHeaderV3V4::deserialize(&data[..len]).is_ok());
+}
+
+// ================================================================ C23 / C22: NtpPacket::deserialize by contract
+// The extension-field walk is replaced by its proved contract (c23_b_efdata_deserialize_*,
+// c25_b_*): any field list, a `remaining_bytes` suffix of the datagram (V4: <= 24 bytes, V5:
+// empty), or any of its error kinds. The precondition `header_size <= data.len()` is asserted at
+// the call site. What is discharged here: every panic site of NtpPacket::deserialize itself
+// (indexing data[0], slicing data[header_size..], the MAC construction, the draft-id lookup).
+use self::extension_fields::{DeserializedExtensionField, InvalidNtsExtensionField};
+pub(crate) fn efdata_deserialize_contract<'a>(
+    data: &'a [u8],
+    header_size: usize,
+    _cipher: &(impl CipherProvider + ?Sized),
+    version: ExtensionHeaderVersion,
+) -> Result<DeserializedExtensionField<'a>, ParsingError<InvalidNtsExtensionField<'a>>>
+where
+    'a: 'a,
+{
+    assert!(header_size <= data.len(), "precondition of ExtensionFieldData::deserialize");
+    let k: usize = kani::any();
+    kani::assume(k >= header_size && k <= data.len());
+    match version {
+        ExtensionHeaderVersion::V4 => kani::assume(data.len() - k <= Mac::MAXIMUM_SIZE),
+        ExtensionHeaderVersion::V5 => kani::assume(k == data.len()),
+    }
+    let mut untrusted = Vec::new();
+    match kani::any::<u8>() {
+        0 => untrusted.push(EF::DraftIdentification(Cow::Borrowed(v5::DRAFT_VERSION))),
+        1 => untrusted.push(EF::DraftIdentification(Cow::Borrowed("draft-other"))),
+        2 => untrusted.push(EF::UniqueIdentifier(Cow::Borrowed(&data[header_size..k]))),
+        3 => untrusted.push(EF::InvalidNtsEncryptedField),
+        _ => {}
+    }
+    let efdata = ExtensionFieldData { authenticated: vec![], encrypted: vec![], untrusted };
+    let remaining_bytes = &data[k..];
+    match kani::any::<u8>() {
+        0 => Ok(DeserializedExtensionField { efdata, remaining_bytes, cookie: None }),
+        1 => Err(ParsingError::DecryptError(InvalidNtsExtensionField { efdata, remaining_bytes })),
+        2 => Err(ParsingError::IncorrectLength),
+        3 => Err(ParsingError::MalformedCookiePlaceholder),
+        4 => Err(ParsingError::MalformedNtsExtensionFields),
+        _ => Err(ParsingError::V5(v5::V5Error::InvalidDraftIdentification)),
+    }
+}
+harness! {
+    #[kani::unwind(26)]
+    #[kani::stub(crate::packet::extension_fields::ExtensionFieldData::deserialize, efdata_deserialize_contract)]
+    #[kani::stub(crate::packet::v5::NtpServerCookie::new_random, server_cookie_stub)]
+    fn c23_tb_packet_deserialize_by_contract() {
+        let data: [u8; 80] = kani::any();
+        let len: usize = kani::any();
+        kani::assume(len <= 80);
+        let d = &data[..len];
+        match NtpPacket::deserialize(d, &NoCipher) {
+            Ok((p, cookie)) => {
+                assert!(len >= 48 && cookie.is_none());
+                let v = (d[0] >> 3) & 7;
+                assert!(matches!((v, p.header), (3, NtpHeader::V3(_)) | (4, NtpHeader::V4(_)) | (5, NtpHeader::V5(_))));
+                if v == 5 {
+                    assert!(p.draft_id() == Some(v5::DRAFT_VERSION));
+                }
+            }
+            Err(ParsingError::InvalidVersion(v)) => assert!(len >= 1 && v == (d[0] >> 3) & 7 && !(3..=5).contains(&v)),
+            Err(ParsingError::DecryptError(p)) => assert!(len >= 48 && !matches!(p.header, NtpHeader::V3(_))),
+            Err(_) => {}
+        }
+        kani::cover!(len == 80 && matches!(NtpPacket::deserialize(d, &NoCipher), Ok((p, _)) if matches!(p.header, NtpHeader::V5(_))), "accepted NTPv5 datagram reachable");
+        kani::cover!(len == 0, "empty datagram reachable");
+    }
+}
+
+// ================================================================ C24: V3/V4 header round trip
+
+/// all 48-byte inputs, both versions: encode succeeds on the decoded header (to_bits_short asserts
+/// a non-negative duration and debug-asserts the 48-bit range: hold for every decoded value),
+/// writes exactly 48 bytes, and reproduces the input except the three version bits of byte 0.
+#[kani::proof]
+fn c24_p_v4_header_roundtrip() {
+    let data: [u8; 48] = kani::any();
+    let version: u8 = kani::any();
+    kani::assume(version == 3 || version == 4);
+    let (h, _) = NtpHeaderV3V4::deserialize(&data).unwrap();
+    let mut out = [0u8; 48];
+    let mut cur = Cursor::new(&mut out[..]);
+    assert!(h.serialize(&mut cur, version).is_ok());
+    assert!(cur.position() == 48);
+    assert!(out[1..] == data[1..]);
+    assert!(out[0] & 0xC7 == data[0] & 0xC7 && (out[0] >> 3) & 7 == version);
+    let (h2, _) = NtpHeaderV3V4::deserialize(&out).unwrap();
+    assert!(h2 == h);
+    kani::cover!(data[0] >> 6 == 3, "leap 3 reachable");
+}
+/// every header VALUE whose short-format durations are representable survives encode/decode.
+#[kani::proof]
+fn c24_p_v4_header_value_roundtrip() {
+    let h = any_header_v3v4();
+    let (rd, rp) = (raw(h.root_delay), raw(h.root_dispersion));
+    kani::assume(rd >= 0 && rd < (1i64 << 48) && rd & 0xFFFF == 0);
+    kani::assume(rp >= 0 && rp < (1i64 << 48) && rp & 0xFFFF == 0);
+    kani::assume(h.leap != NtpLeapIndicator::Unknown); // Unknown and Unsynchronized share wire value 3
+    let mut out = [0u8; 48];
+    let mut cur = Cursor::new(&mut out[..]);
+    assert!(h.serialize(&mut cur, 4).is_ok());
+    let (h2, n) = NtpHeaderV3V4::deserialize(&out).unwrap();
+    assert!(n == 48 && h2 == h);
+    kani::cover!(h.mode == NtpAssociationMode::Private, "reachable");
+}
+/// encode into a buffer shorter than 48 bytes returns an error (no panic, no partial success).
+#[kani::proof]
+fn c24_p_v4_header_short_buffer_errors() {
+    let data: [u8; 48] = kani::any();
+    let (h, _) = NtpHeaderV3V4::deserialize(&data).unwrap();
+    let n: usize = kani::any();
+    kani::assume(n < 48);
+    let mut out = [0u8; 48];
+    let mut cur = Cursor::new(&mut out[..n]);
+    assert!(h.serialize(&mut cur, 4).is_err());
+    kani::cover!(n == 47, "reachable");
+}
+#[kani::proof]
+fn c24_canary_v4_header_negative_delay_encodes() {
+    // false claim: every header value (also negative root delay) can be encoded
+    let h = any_header_v3v4();
+    kani::assume(raw(h.root_dispersion) == 0);
+    let mut out = [0u8; 48];
+    let mut cur = Cursor::new(&mut out[..]);
+    assert!(h.serialize(&mut cur, 4).is_ok());
+}
+
 
 #[cfg(all(kani, test))]
 mod replay {
